@@ -40,6 +40,10 @@ def build(prop, tier="quick"):
                    excluded=[r"arithmetic overflow on floating-point", r"NaN on"])
         t.expect_loops = True
         kb.targets.append(t)
+    if tier == "thorough":
+        rc, cases, err = _run_probe()
+        kb.static_facts.append(("native battery (thorough tier): 22 floating literals within 4 ulp of strtof / strtod / strtold on the real engine",
+                                rc == 0 and not cases, (err.strip() + " " + str(cases[:3]))[:400]))
     kb.assumptions += ["std::pow is any value (the result's accuracy is not claimed); floating overflow to infinity / NaN checks are excluded (defined behaviour in IEEE arithmetic)"]
     kb.unverified += ["the ulp accuracy of floating literals (the property's bound): not within CBMC's reach"]
     return kb
